@@ -87,4 +87,24 @@ theorem plain_value_unfolds_to_itself (n : Nat) (value : Bytes)
     HeaderReader.unfold (encodeValue opts n value) = value :=
   HeaderEnc.unfold_encodeValue_plain n value h
 
+/-! ### recorded findings, exhibited by the model (the same inputs fail on the real code: `known_findings.json`) -/
+
+/-- finding `tab-not-a-fold-point`: a 72-character name and a value whose only white space is HTAB give a line over 78
+    octets that has two tokens (it could have been folded at the HTAB) -/
+theorem tab_not_fold_point_witness :
+    HeaderReader.longLinesAreSingleTokens ((List.replicate 72 88) ++ [58, 32] ++ encodeValue opts 72 (str "aaaa\tbbbb") ++ [13, 10]) = false := by
+  decide
+
+/-- finding `trailing-white-space-past-78`: spaces at the end of the value are appended to a full last line -/
+theorem trailing_spaces_witness :
+    (HeaderReader.physicalLines [] ((List.replicate 10 88) ++ [58, 32] ++ encodeValue opts 10 ((List.replicate 66 97) ++ [32, 32, 32]))).any
+      (fun l => l.length > 78) = true := by
+  decide
+
+/-- finding `space-run-over-998`: a run of 1000 spaces is written on one line -/
+theorem space_run_witness :
+    (HeaderReader.physicalLines [] ((str "X") ++ [58, 32] ++ encodeValue opts 1 (List.replicate 1000 32 ++ [120]))).any
+      (fun l => l.length > 998) = true := by
+  decide +kernel
+
 end LV.C02
